@@ -156,6 +156,34 @@ def check_preset_reuse(chk: Check, name, cls, sig: np.ndarray):
         chk.agree()
 
 
+def check_instances_independent(chk: Check, tag: str, make_a, make_b, sig_a: np.ndarray, sig_b: np.ndarray, blocks: List[int]):
+    """a stereo export drives one filter per channel, block by block in turns: what one instance returns must not depend
+    on another instance being created, fed, reset or flushed in between (same block schedule in both runs, so the result
+    is compared with itself, not with a model)"""
+    chk.evaluated(("instances", tag, tuple(blocks), hashlib.sha1(sig_a.tobytes() + sig_b.tobytes()).hexdigest()[:8]), nontrivial=True)
+    solo_a = run_schedule(make_a(), sig_a, blocks)
+    solo_b = run_schedule(make_b(), sig_b, blocks)
+    a, b = make_a(), make_b()
+    out_a, out_b, pos = [], [], 0
+    for k, n in enumerate(blocks):
+        out_a += list(a.process(sig_a[pos:pos + n]))
+        if k == 1:
+            make_b().reset_state()                      # an unrelated instance comes and goes
+        out_b += list(b.process(sig_b[pos:pos + n]))
+        pos += n
+    out_a += list(a.get_remaining())
+    out_b += list(b.get_remaining())
+    problems = []
+    if out_a != solo_a:
+        problems.append(f"first instance: interleaved output differs from its solo run ({len(out_a)} vs {len(solo_a)} samples)")
+    if out_b != solo_b:
+        problems.append(f"second instance: interleaved output differs from its solo run ({len(out_b)} vs {len(solo_b)} samples)")
+    if problems:
+        chk.violation({"instances": tag, "blocks": blocks}, f"{tag}, blocks {blocks[:8]}: " + "; ".join(problems))
+    else:
+        chk.agree()
+
+
 def run(chk: Check):
     thorough = chk.tier == "thorough"
     rng = random.Random(chk.seed)
@@ -213,6 +241,23 @@ def run(chk: Check):
                 sig = np.asarray([rng.randint(-30000, 30000) for _ in range(n)], dtype=np.int16)
                 check_preset_relation(chk, name, cls, ntaps, is_fir, sig, [n // 2, n - n // 2], f"long {base}+{r}")
                 check_preset_relation(chk, name, cls, ntaps, is_fir, sig, [1000] * (n // 1000) + ([n % 1000] if n % 1000 else []), f"long {base}+{r} /1000")
+    # two live instances fed in turns (one filter per channel), same class and mixed classes
+    plist = presets()
+    for i, (name, cls, ntaps, is_fir) in enumerate(plist):
+        other = plist[(i + 1) % len(plist)]
+        for bl in ([50, 50, 50], [100, 30, 70, 25], [400] * 3):
+            n = sum(bl)
+            sa = np.asarray([rng.randint(-30000, 30000) for _ in range(n)], dtype=np.int16)
+            sb = np.asarray([rng.randint(-30000, 30000) for _ in range(n)], dtype=np.int16)
+            check_instances_independent(chk, f"{name} x {name}", cls, cls, sa, sb, bl)
+            check_instances_independent(chk, f"{name} x {other[0]}", cls, other[1], sa, sb, bl)
+    for f in filter_set(thorough)[: (None if thorough else 6)]:
+        for bl in ([20, 20, 20], [7, 30, 23]):
+            n = sum(bl)
+            dt = make_real(f)[1]
+            sa = np.asarray([rng.randint(-9, 9) for _ in range(n)], dtype=dt)
+            sb = np.asarray([rng.randint(-9, 9) for _ in range(n)], dtype=dt)
+            check_instances_independent(chk, f"generic {f['kind']} x itself", (lambda f=f: make_real(f)[0]), (lambda f=f: make_real(f)[0]), sa, sb, bl)
     for name, cls, ntaps, is_fir in presets():
         for n in (40, 64, 196):
             check_preset_reuse(chk, name, cls, np.asarray([rng.randint(-20000, 20000) for _ in range(n)], dtype=np.int16))
